@@ -513,6 +513,38 @@ impl DBM {
         tx.commit()
     }
 
+    /// Removes an invalid appointment from the database.
+    ///
+    /// If the invalid appointment is the only instance of the appointment, the appointment will also be deleted form the appointments table.
+    pub fn delete_invalid_appointment(
+        &mut self,
+        tower_id: TowerId,
+        locator: Locator,
+    ) -> Result<(), SqliteError> {
+        let count: u32 = self
+            .connection
+            .query_row(
+                "SELECT (SELECT COUNT(*) FROM pending_appointments WHERE locator=?1) + (SELECT COUNT(*) FROM invalid_appointments WHERE locator=?1)",
+                params![locator.to_vec()],
+                |row| row.get(0),
+            )
+            .unwrap();
+
+        let tx = self.get_mut_connection().transaction().unwrap();
+        if count == 1 {
+            tx.execute(
+                "DELETE FROM appointments WHERE locator=?",
+                params![locator.to_vec()],
+            )?;
+        } else {
+            tx.execute(
+                "DELETE FROM invalid_appointments WHERE locator=?1 AND tower_id=?2",
+                params![locator.to_vec(), tower_id.to_vec()],
+            )?;
+        };
+        tx.commit()
+    }
+
     /// Stores an invalid appointment into the database.
     ///
     /// An invalid appointment is an appointment that was rejected by the tower.
